@@ -1,10 +1,181 @@
-import AcraModel.Basic.Bytes
-/-! Driver ops for C09. -/
+import AcraModel.Searchable.Eval
+import AcraModel.Searchable.Processor
+import AcraModel.Crypto.Shim
+import Driver.C01
+/-! Driver ops for C09 (searchable encryption). -/
 namespace Driver.C09
-open AcraModel
+open AcraModel AcraModel.Envelope AcraModel.Searchable
+open Driver.C01 (parseKV parseKind parseList parseOpt outHex)
+
+def C := shimOps
+
+def optB : Option Bytes → String
+  | some b => "some " ++ hexOf b
+  | none => "none"
+
+/-! ### condition language: reverse Polish, tokens joined by `,`
+`C.t.c` column, `L.hex` literal, `K.hex` cast literal, `P.i` placeholder, `Q.i` cast placeholder,
+`O` other; `=`, `<>`, `<=>`, `<` comparison; `&`, `|` connectives. -/
+
+def parseCol (t c : String) : Option ColRef := do pure ⟨← t.toNat?, ← c.toNat?⟩
+
+def parseOperand (tok : String) : Option Operand :=
+  match tok.splitOn "." with
+  | ["C", t, c] => do pure (.col (← parseCol t c))
+  | ["L", h] => do pure (.lit (← ofHex h))
+  | ["K", h] => do pure (.cast (← ofHex h))
+  | ["P", i] => do pure (.param (← i.toNat?))
+  | ["Q", i] => do pure (.castParam (← i.toNat?))
+  | ["O"] => some .other
+  | _ => none
+
+def parseOp (s : String) : Option Op :=
+  if s = "=" then some .eq else if s = "<>" then some .ne else if s = "<=>" then some .nullSafeEq
+  else if s = "<" then some .lt else none
+
+inductive StackItem | opnd (o : Operand) | cnd (c : Cond)
+
+def parseCondToks : List String → List StackItem → Option Cond
+  | [], [.cnd c] => some c
+  | [], _ => none
+  | t :: ts, st =>
+    match parseOp t, st with
+    | some op, .opnd r :: .opnd l :: rest => parseCondToks ts (.cnd (.cmp l op r) :: rest)
+    | some _, _ => none
+    | none, _ =>
+      if t = "&" ∨ t = "|" then
+        match st with
+        | .cnd b :: .cnd a :: rest => parseCondToks ts (.cnd (if t = "&" then .and a b else .or a b) :: rest)
+        | _ => none
+      else do
+        let o ← parseOperand t
+        parseCondToks ts (.opnd o :: st)
+
+def parseCond (s : String) : Option Cond := parseCondToks (s.splitOn ",") []
+
+def opStr : Op → String
+  | .eq => "=" | .ne => "<>" | .nullSafeEq => "<=>" | .lt => "<"
+
+def exprStr : DbExpr → String
+  | .col c => s!"C.{c.tbl}.{c.col}"
+  | .substr c f n b => s!"{if b then "B" else "S"}.{c.tbl}.{c.col}.{f}.{n}"
+  | .const v => s!"V.{hexOf v}"
+  | .param i => s!"P.{i}"
+  | .castParam i => s!"Q.{i}"
+  | .other => "O"
+
+def dbStr : DbCond → String
+  | .cmp l op r => s!"{exprStr l},{exprStr r},{opStr op}"
+  | .and a b => s!"{dbStr a},{dbStr b},&"
+  | .or a b => s!"{dbStr a},{dbStr b},|"
+
+/-- searchable columns: `_` or `t.c;t.c` -/
+def parseCols (s : String) : Option (List ColRef) :=
+  if s = "_" then some [] else (s.splitOn ";").mapM fun p =>
+    match p.splitOn "." with
+    | [t, c] => parseCol t c
+    | _ => none
+
+/-- rows: `_` or rows joined by `;`, each `t.c:hex|t.c:hex` -/
+def parseRow (s : String) : Option Row :=
+  (s.splitOn "|").mapM fun cell =>
+    match cell.splitOn ":" with
+    | [tc, h] =>
+      match tc.splitOn "." with
+      | [t, c] => do pure ((← parseCol t c), (← ofHex h))
+      | _ => none
+    | _ => none
+
+def parseRows (s : String) : Option (List Row) :=
+  if s = "_" then some [] else (s.splitOn ";").mapM parseRow
+
+def parseDialect (s : String) : Option Dialect :=
+  if s = "pg" then some .pg else if s = "mysql" then some .mysql else none
+
+def listStr (l : List Bytes) : String :=
+  if l.isEmpty then "_" else ",".intercalate (l.map hexOf)
+
+def bits (l : List Bool) : String :=
+  if l.isEmpty then "_" else String.ofList (l.map fun b => if b then '1' else '0')
+
+def optListStr (l : List (Option Bytes)) : String :=
+  if l.isEmpty then "_" else ",".intercalate (l.map fun o => match o with | some b => hexOf b | none => "fatal")
+
+def stStr (s : PState) : String :=
+  s!"{optB s.hashData |>.replace " " ":"}/{optB s.matchedHash |>.replace " " ":"}/{hexOf s.rawData}"
+
+def parseSt (s : String) : Option PState :=
+  let o (t : String) : Option (Option Bytes) :=
+    if t = "none" then some none else
+      match t.splitOn ":" with
+      | ["some", h] => (ofHex h).map some
+      | _ => none
+  match s.splitOn "/" with
+  | [a, b, c] => do pure ⟨← o a, ← o b, ← ofHex c⟩
+  | _ => none
 
 def handle (op : String) (args : List String) : Option String :=
   match op, args with
+  | "hmac", [k, d] => do pure (hexOf (generateHMAC C (← ofHex k) (← ofHex d)))
+  | "extract", [d] => do
+      pure (match extractHashAndData (← ofHex d) with
+        | some (h, rest) => s!"some {hexOf h} {hexOf rest}"
+        | none => "none")
+  | "isequal", [k, h, d] => do pure (toString (isEqual C (← parseOpt k) (← ofHex h) (← ofHex d)))
+  -- encrypt kind hkey [kv ×4] data rnd
+  | "encrypt", [k, hk, pub, privs, sym, syms, d, rnd] => do
+      pure (outHex (searchableEncrypt C (← parseOpt hk) (← parseKV pub privs sym syms) (← parseKind k) (← ofHex d) (← ofHex rnd)))
+  | "decrypt.struct", [hk, privs, ctx, d] => do
+      pure (outHex (decryptSearchableStruct C (← ofHex hk) (← parseList privs) (← ofHex ctx) (← ofHex d)))
+  | "decrypt.block", [hk, keys, ctx, d] => do
+      pure (outHex (decryptSearchableBlock C (← ofHex hk) (← parseList keys) (← ofHex ctx) (← ofHex d)))
+  -- hashproc hkey [kv ×4] data   (NewHashProcessor around the registry handler)
+  | "hashproc", [hk, pub, privs, sym, syms, d] => do
+      let kv ← parseKV pub privs sym syms
+      pure (outHex (hashProcessor C (← parseOpt hk) (process C kv) (← ofHex d)))
+  | "match", [d] => do pure ((matchEnvelope (← ofHex d)).render toString)
+  -- oncolumn hkey second state data
+  | "oncolumn", [hk, sec, st, d] => do
+      pure ((pOnColumn C (← parseOpt hk) (sec == "true") (← parseSt st) (← ofHex d)).render fun o =>
+        s!"{stStr o.st} {hexOf o.data} {o.notDecrypted}")
+  -- columns hkey [kv ×4] cols   (one Processor object, the subscriber chain of proxy.go per column)
+  | "columns", [hk, pub, privs, sym, syms, cols] => do
+      let kv ← parseKV pub privs sym syms
+      pure ((columns C (← parseOpt hk) (clientDetector C kv) PState.init (← parseList cols)).render fun (s, os) =>
+        s!"{stStr s} {optListStr os}")
+  -- the pinned tree's processor (before the repair): regression witnesses only, model side
+  | "legacy.columns", [hk, pub, privs, sym, syms, cols] => do
+      let kv ← parseKV pub privs sym syms
+      pure ((legacyColumns C (← parseOpt hk) (clientDetector C kv) PState.init (← parseList cols)).render fun (s, os) =>
+        s!"{stStr s} {optListStr os}")
+  | "tr.encrypt", [k, hk, pub, privs, sym, syms, d, rnd] => do
+      pure ((translatorEncrypt C (← parseOpt hk) (← parseKV pub privs sym syms) (← parseKind k) (← ofHex d) (← ofHex rnd)).render
+        fun (e, h) => s!"{hexOf e} {hexOf h}")
+  | "tr.decrypt", [k, hk, pub, privs, sym, syms, d] => do
+      pure (outHex (translatorDecrypt C (← parseOpt hk) (← parseKV pub privs sym syms) (← parseKind k) (← ofHex d)))
+  | "tr.queryhash", [hk, d] => do pure (outHex (generateQueryHash C (← parseOpt hk) (← ofHex d)))
+  -- query dialect hkey [kv ×4] searchableCols cond params rows → rewritten condition, bound values, selected rows
+  | "query", [d, hk, pub, privs, sym, syms, cols, cond, params, rows, _variant] => do
+      let sc ← parseCols cols
+      let x : QCtx := { c := C, d := ← parseDialect d, hkey := ← parseOpt hk, kv := ← parseKV pub privs sym syms,
+                        searchable := fun c => sc.contains c }
+      let cnd ← parseCond cond
+      let ps ← parseList params
+      let rs ← parseRows rows
+      pure (match rewriteCond x cnd with
+        | .err => "err-query"
+        | .panic => "panic"
+        | .ok dc =>
+          match rewriteBind x cnd ps with
+          | .err => s!"err-bind {dbStr dc}"
+          | .panic => "panic"
+          | .ok ps' => s!"ok {dbStr dc} {listStr ps'} {bits (rs.map fun r => evalDb ps' r dc)}")
+  -- plain cond params rows: the specification (rows hold plaintexts)
+  | "spec", [cond, params, rows] => do
+      let cnd ← parseCond cond
+      let ps ← parseList params
+      let rs ← parseRows rows
+      pure (bits (rs.map fun r => holds r.get ps cnd))
   | _, _ => none
 
 end Driver.C09
